@@ -491,3 +491,72 @@ fn slider_node_banks() {
 
 // @verif property=C14 tier=thorough timeout=3000 mem=32 bounds="slider line '$a,$b,1000,2,2,L|200:100,2,100,2|2|2,,2:3:0:0:' (concrete apart from the position): node sample sets inherit the slider's banks"
 oracle_proof!(c14_slider_node_banks, 48, slider_node_banks());
+
+/// One typed segment with THREE explicit points and no restriction on repeated points:
+/// `<letter>|$a:$b|$c:$d|$e:$f`. A repeated point splits the segment (the point before the
+/// repetition gets the type, the repetition itself is dropped) -- except in Catmull paths after
+/// the first point, and except at the segment's last position.
+fn path_three_points(letter_code: u8, template: &'static str) {
+    let mut st = HitObjectsState::create(14);
+    let offset = Pos::new(kani::any::<i8>() as f32, kani::any::<i8>() as f32);
+    let c = [
+        coord(stubs::seed_f64(b'a')), coord(stubs::seed_f64(b'b')), coord(stubs::seed_f64(b'c')),
+        coord(stubs::seed_f64(b'd')), coord(stubs::seed_f64(b'e')), coord(stubs::seed_f64(b'f')),
+    ];
+    let res = ho_hooks::convert_path_str(&mut st, tok_line(template), offset);
+    let ok = c[0].is_some() && c[1].is_some() && c[2].is_some() && c[3].is_some() && c[4].is_some() && c[5].is_some();
+    assert!(res.is_ok() == ok);
+    if !ok {
+        assert!(st.curve_points.is_empty(), "a rejected path left control points behind");
+        core::mem::forget(st);
+        return;
+    }
+    let v = [
+        Pos::new(0.0, 0.0),
+        Pos::new(c[0].unwrap() - offset.x, c[1].unwrap() - offset.y),
+        Pos::new(c[2].unwrap() - offset.x, c[3].unwrap() - offset.y),
+        Pos::new(c[4].unwrap() - offset.x, c[5].unwrap() - offset.y),
+    ];
+    let same = |i: usize, j: usize| v[i].x == v[j].x && v[i].y == v[j].y;
+    let (e1, e2, e3) = (same(1, 0), same(2, 1), same(3, 2));
+    let catmull = letter_code == 1;
+    // a perfect curve with four vertices is a Bezier
+    let kind = if letter_code == 4 { 2 } else { letter_code };
+    // expected list as (vertex index, carries the type)
+    let mut want: [(usize, bool); 4] = [(0, true), (1, false), (2, false), (3, false)];
+    let mut n = 4;
+    let split_at_2 = e2 && !catmull; // repetition in the middle (never at the last position)
+    if e1 && split_at_2 {
+        want = [(0, true), (3, false), (0, false), (0, false)];
+        n = 2;
+    } else if e1 {
+        want = [(0, true), (2, false), (3, false), (0, false)];
+        n = 3;
+    } else if split_at_2 {
+        want = [(0, true), (1, true), (3, false), (0, false)];
+        n = 3;
+    }
+    let _ = e3; // a repetition at the segment's last position never splits
+    let cp = &st.curve_points;
+    assert!(cp.len() == n, "control-point count differs from the legacy splitting rule");
+    let mut i = 0;
+    while i < n {
+        let (idx, typed) = want[i];
+        assert!(cp[i].pos.x == v[idx].x && cp[i].pos.y == v[idx].y, "control-point position differs from the legacy splitting rule");
+        assert!(kind_code(&cp[i]) == if typed { kind } else { 0 }, "control-point type differs from the legacy splitting rule");
+        i += 1;
+    }
+    kani::cover!(e1 && !e2, "first point repeats the origin");
+    if !catmull {
+        kani::cover!(e2 && !e1, "repetition in the middle splits the segment");
+    } else {
+        kani::cover!(e2 && !e1, "repetition in a Catmull path does not split");
+    }
+    kani::cover!(e3 && !e2 && !e1, "repetition at the last position does not split");
+    core::mem::forget(st);
+}
+
+// @verif property=C14,C06,C01 tier=quick timeout=1800 mem=20 covers=3 bounds="convert_path_str on 'B|$a:$b|$c:$d|$e:$f' (all coordinates every f64 / error; every pattern of repeated points), offset on the integer grid"
+oracle_proof!(c14_path_b3_repeats, 32, path_three_points(2, "B|$a:$b|$c:$d|$e:$f"));
+// @verif property=C14 tier=quick timeout=1800 mem=20 covers=3 bounds="convert_path_str on 'C|$a:$b|$c:$d|$e:$f' (Catmull: repetitions after the first point do not split)"
+oracle_proof!(c14_path_c3_repeats, 32, path_three_points(1, "C|$a:$b|$c:$d|$e:$f"));
